@@ -450,6 +450,25 @@ func NumCPU() int {
 	return sch.cfg.NumCPU
 }
 
+// GOMAXPROCS replaces runtime.GOMAXPROCS: a per-run configuration value that is
+// independent of NumCPU. It has no influence on the explored interleavings (a single
+// P still interleaves goroutines at every blocking point and preemption).
+//
+//go:norace
+func GOMAXPROCS(n int) int {
+	if !active {
+		return runtime.GOMAXPROCS(n)
+	}
+	prev := sch.cfg.GoMaxProcs
+	if prev <= 0 {
+		prev = sch.cfg.NumCPU
+	}
+	if n > 0 {
+		sch.cfg.GoMaxProcs = n
+	}
+	return prev
+}
+
 //go:norace
 func mapOrderSeed(n int) uint64 {
 	if !active || n < 2 {
